@@ -3,6 +3,7 @@ import z3
 
 from . import spec as S
 from .arr import SymArr, as_array, havoc_array, new_array
+from .core import Proxy  # noqa
 from .core import SymNum, Unsupported, and_, ctx, div, implies, is_sym, ite, not_, or_, spec_fn
 
 
@@ -10,7 +11,7 @@ def _use(name):
     ctx().used_prelude.add("sklearn." + name)
 
 
-class SymStandardScaler:
+class SymStandardScaler(Proxy):
     """StandardScaler(with_mean=False, with_std=True): scale_[c] = population std of column c
     (zero -> 1); fit_transform returns X / scale_ column-wise, IN PLACE when copy=False."""
 
@@ -54,7 +55,7 @@ class SymStandardScaler:
         return res
 
 
-class _SymRegressor:
+class _SymRegressor(Proxy):
     KIND = "?"
 
     def fit(self, X, y, sample_weight=None):
